@@ -197,6 +197,7 @@ func (c *Context) ActorOf(actor vivid.Actor, options ...vivid.ActorOption) (vivi
 	}
 	c.children[childCtx.Ref().GetPath()] = childCtx.Ref()
 
+	verifhook.At("ctx.actorof.launch", c, childCtx)
 	c.tell(true, childCtx.Ref(), new(vivid.OnLaunch))
 	c.Logger().Debug("actor spawned", log.String("path", childCtx.Ref().GetPath()))
 
